@@ -10,7 +10,7 @@ GENS = {'g1': (1000.0, 11), 'g2': (2000.0, 12)}     # (st_ctime, st_ino)
 
 STEPS = ['created', 'deleted', 'ready_created', 'ready_deleted', 'restart',
          'finishes', 'cleanup_done', 'recreated', 'finishes_then_restart',
-         'recreated_events_late']
+         'recreated_events_late', 'deleted_racing_monitor']
 
 
 def subharnesses(tier):
@@ -208,6 +208,45 @@ def harness(S, spec):
             shim.gen = 'g2'
             cache = 'g2'
             mgr._on_created(cache_file)
+        elif step == 'deleted_racing_monitor':
+            # the cache entry is deleted while the container exits on its own:
+            # the monitor moves the running link between _terminate reading
+            # it and renaming it
+            from treadmill import monitor
+            S.assume(cache != 'none' and run != 'none')
+            g = 'g' + run[1]
+            S.assume(not os.path.lexists(os.path.join(dirs['cleanup'], INST)))
+            S.assume(not os.path.lexists(os.path.join(dirs['cleanup'],
+                                                      cname[g])))
+            os.unlink(cache_file)
+            shim.gen = None
+            cache = 'none'
+
+            class _Svc:
+                data_dir = os.path.join(dirs['apps'], cname[g], 'data')
+            monitor.supervisor.open_service = lambda *a, **k: _Svc()
+            monitor.supervisor.control_svscan = lambda *a, **k: None
+            real_fs = appcfgmgr.fs
+            fired = [False]
+
+            class _Fs:
+                def __getattr__(self, n):
+                    return getattr(real_fs, n)
+
+                @staticmethod
+                def replace(a, b):
+                    if not fired[0]:
+                        fired[0] = True
+                        act = monitor.MonitorContainerCleanup(mgr.tm_env, {})
+                        act.execute({'id': INST, 'signal': 0,
+                                     'return_code': 0})
+                        S.reach('monitor_raced_with_terminate')
+                    return real_fs.replace(a, b)
+            appcfgmgr.fs = _Fs()
+            try:
+                mgr._on_deleted(cache_file)
+            finally:
+                appcfgmgr.fs = real_fs
         elif step == 'recreated_events_late':
             # evicted and placed again on this node while the manager was busy:
             # both inotify events are handled after the new file exists
